@@ -262,7 +262,7 @@ def to_real(v):
     if isinstance(v, bool):
         return z3.RealVal(int(v))
     if isinstance(v, int):
-        return z3.RealVal(v)
+        return z3.RealVal(int.__index__(v))  # int subclasses (enum members, Length) may override __str__
     if isinstance(v, float):
         if v != v or v in (float("inf"), float("-inf")):
             raise Unsupported("non-finite float constant in real arithmetic")
@@ -280,7 +280,7 @@ def to_int(v):
     if isinstance(v, bool):
         return z3.IntVal(int(v))
     if isinstance(v, int):
-        return z3.IntVal(int(v))
+        return z3.IntVal(int.__index__(v))
     raise Unsupported("cannot convert %r to Int" % (v,))
 
 
